@@ -177,6 +177,54 @@ def finish(ex, p):
     ex.raw_fail = []
 
 
+# callees whose `return` / body shape goes beyond what the generator produces: (tag, ret, params, body, caller)
+SEMANTIC_TEMPLATES = [
+    ("retpostinc", "int32_t", ["int32_t x"], "{ int32_t q = x; return q++; }", "{ RdV = @(RsV) + 1; }"),
+    ("retpostdec", "uint32_t", ["uint32_t x"], "{ uint32_t q = x + 3; q = q * 2; return q--; }", "{ RdV = @(RsV); ReV = @(RtV); }"),
+    ("retcall", "uint32_t", ["uint32_t x"], "{ uint32_t q = ~x; return clz32(q); }", "{ RdV = @(RsV); }"),
+    ("retcallexpr", "uint32_t", ["uint32_t x"], "{ uint32_t q = x; q = q + 1; return clz32(q) + q; }", "{ RdV = @(RsV); }"),
+    ("incthenret", "int32_t", ["int32_t x"], "{ int32_t q = x; q++; return q + 1; }", "{ RdV = @(RsV) - @(RtV); }"),
+    ("loopret", "uint32_t", ["uint32_t n"], "{ uint32_t acc = 1; for (i = 0; i < (n & 3); i++) { acc = acc * 3; } return acc++; }", "{ RdV = @(RsV); }"),
+    ("argpostinc", "int32_t", ["int32_t x"], "{ return x + 1; }", "{ int32_t k = RsV; RdV = @(k++); ReV = k; }"),
+    ("nested", "int32_t", ["int32_t x"], "{ return x * 2; }", "{ RdV = @(@(RsV) + 1); }"),
+]
+
+
+def semantic_templates(ctx):
+    from ..cref import make_subdef
+    c = boot.compiler()
+    subs = dict(diff.bundled_subs())
+    for tag, ret, params, body, caller in SEMANTIC_TEMPLATES:
+        name = f"c08t_{tag}_{os.getpid()}"
+        try:
+            with boot.quiet():
+                c.add_sub_routine(name, ret, params, body)
+        except Exception:
+            ctx.count("semantic template callee rejected")
+            continue
+        subs[name] = make_subdef(name, ret, params, body)
+        text = caller.replace("@", name)
+        resolver = diff.make_resolver(c)
+        st, il = progcheck.try_compile(c, text)
+        if st != "ok":
+            ctx.count("semantic template caller rejected")
+            continue
+        ast = diff.parse_c(text)
+        il_body = reader.parse_body(il)
+        for stt in diff.simple_states(operands_closure(ast, subs), 6, 17):
+            ctx.evaluations += 1
+            r, _ = progcheck.judge_state(ast, il_body, stt, resolver, subs)
+            if r is None:
+                ctx.nontriv(("semantic-template", tag, run.h64(stt)))
+                continue
+            if r[0] == "discard":
+                ctx.discard(r[1])
+                continue
+            ctx.failure(f"C08 template callee {tag}: {r[0]}", {"program": text.replace(name, "c08t_" + tag), "state": stt, "detail": r[1],
+                                                                "subs": [("c08t_" + tag, ret, params, body)], "fresh_compiler": False})
+            break
+
+
 def definition_part(ctx):
     """the emitted *definition* of a callee must be a function the caller can call: a body that reads registers, the
     program counter, immediates or the slot gets the packet / instruction variables it uses (template callees through the
@@ -215,6 +263,7 @@ def run_check(ctx):
     n, ns = (6000, 8) if ctx.tier == "thorough" else (320, 5)
     run.run_sharded(ctx, worker, [(n // 16, ns, run.sub_seed(ctx.seed, "c08", i), 8, frozenset(enable)) for i in range(16)])
     definition_part(ctx)
+    semantic_templates(ctx)
     for k in ("history:fresh compiler", "history:long-lived compiler"):
         if not ctx.classes.get(k):
             raise run.HarnessError("no example for " + k)
